@@ -77,11 +77,22 @@ def plan(seed, subbatch):
         if route == "hexital_member":
             route = "hexital_level"   # member managers derived from trimmed base candles: known finding C08
     return {"format": 1, "property": ID, "seed": seed, "subbatch": subbatch,
-            "config": {"route": route, "tf": tf, "base_s": base_s, "lifespan_s": lifespan},
+            "config": {"route": route, "tf": tf, "base_s": base_s, "lifespan_s": lifespan,
+                       "utc_offset_min": cfg.choice((None, None, None, None, 0, 60, 345))},
             "ops": [{"op": "new", "preload": pre}] + ops, "fired": dict(fired)}
 
 
 def execute(trace, ctx=None):
+    from .. import catalogue
+
+    catalogue.TZ_OFFSET_MIN = trace["config"].get("utc_offset_min")
+    try:
+        return _execute(trace)
+    finally:
+        catalogue.TZ_OFFSET_MIN = None
+
+
+def _execute(trace):
     def body(run):
         cfg = trace["config"]
         tf, route = cfg["tf"], cfg["route"]
